@@ -400,7 +400,12 @@ def _do_call(shaper, c, workdir):
     if c["sink"] == "string":
         st, v, exc, frame = runner.call_guarded(lambda: shaper.shex_graph(string_output=True, output_format=fmt, acceptance_threshold=thr), timeout=20)
         return st, (v if st == "ok" else None), None, exc, frame
-    path = os.path.join(workdir, "out_%d.txt" % random.randrange(10 ** 9))
+    # the user's output path: the same one for every file call of a history, and something may already be there (a call must
+    # leave exactly its own text in the file)
+    path = os.path.join(workdir, "out.txt")
+    if not os.path.exists(path) and random.random() < .5:
+        with open(path, "w", encoding="utf8") as fh:
+            fh.write("# left over from an earlier run\n<http://example.org/old> { }\n")
     st, v, exc, frame = runner.call_guarded(lambda: shaper.shex_graph(output_file=path, output_format=fmt, acceptance_threshold=thr), timeout=20)
     text = None
     if st == "ok" and os.path.exists(path):
